@@ -1083,8 +1083,16 @@ class Grammar(PGFile):
             if isinstance(term.recognizer, StringRecognizer):
                 match = keyword_rec(term.recognizer.value, 0)
                 if match == term.recognizer.value:
+                    # Keyword text is matched literally. `\b` asserts a word
+                    # boundary only if the adjacent keyword character is a
+                    # word character; otherwise explicitly forbid a word
+                    # character next to the keyword.
+                    before = r"\b" if re.match(r"\w", match[0]) else r"(?<!\w)"
+                    after = r"\b" if re.match(r"\w", match[-1]) else r"(?!\w)"
                     term.recognizer = RegExRecognizer(
-                        rf"\b{match}\b", ignore_case=term.recognizer.ignore_case
+                        f"{before}{re.escape(match)}{after}",
+                        name=match,
+                        ignore_case=term.recognizer.ignore_case,
                     )
                     term.keyword = True
 
